@@ -136,11 +136,11 @@ func run(repo, hooks, out string) error {
 						return true
 					}
 					switch se.Sel.Name {
-					case "Create", "Open", "Rename", "OpenFile", "Remove", "ReadFile", "WriteFile":
+					case "Create", "Open", "Rename", "OpenFile", "Remove", "ReadFile", "WriteFile", "Stat", "Lstat":
 						id.Name = "verifhook"
 						se.Sel.Name = "Os" + se.Sel.Name
 						changed = true
-					case "Stat", "Lstat", "Truncate", "Link", "Symlink", "ReadDir", "CreateTemp", "MkdirTemp", "Mkdir", "MkdirAll", "RemoveAll", "Chmod", "NewFile", "DirFS":
+					case "Truncate", "Link", "Symlink", "ReadDir", "CreateTemp", "MkdirTemp", "Mkdir", "MkdirAll", "RemoveAll", "Chmod", "NewFile", "DirFS":
 						// a file operation the simulated disk does not model: refuse to build
 						// rather than let package app reach the real file system unnoticed
 						unredirected = append(unredirected, fmt.Sprintf("%s: os.%s", p.Fset.Position(se.Pos()), se.Sel.Name))
